@@ -677,6 +677,10 @@ class Interp:
             return a == b
         if isinstance(a, SClass) and isinstance(b, SClass):
             return a.cinfo.qual == b.cinfo.qual
+        if isinstance(a, SEntropy) and isinstance(b, SEntropy):
+            return a.stream == b.stream and a.forbidden == b.forbidden
+        if isinstance(a, SFunc) and isinstance(b, SFunc):
+            return a.finfo is b.finfo and a.self_val == b.self_val
         if isinstance(a, SBuiltin) and isinstance(b, SBuiltin):
             return a.name == b.name
         if isinstance(a, (SClass, SBuiltin)) or isinstance(b, (SClass, SBuiltin)):
@@ -974,6 +978,31 @@ class Interp:
             if nm == "classof":
                 o = self.eval(node.args[0], frame, pure)
                 return self.ctx.obj(o).clsname().split(".")[-1]
+        if isinstance(node.func, ast.Name) and frame.finfo is not None and getattr(frame.finfo, "ghost", False):
+            nm = node.func.id
+            if nm == "assume":
+                self.ctx.assume(self.truth(self.eval(node.args[0], frame, True)))
+                if self.ctx.check() == z3.unsat:
+                    raise PathEnd("infeasible-assume")
+                return None
+            if nm == "lemma":
+                from . import theory
+                args = [self.eval(a, frame, True) for a in node.args]
+                vals = [a.t if isinstance(a, (SInt, SPoint, SBytes, SBool)) else (sym.IV(a) if isinstance(a, int) and not isinstance(a, bool) else a) for a in args[1:]]
+                inst = theory.instantiate(args[0], vals)
+                sym.FACTS.add(inst, ("T1:" if theory.LEMMAS[args[0]].proved else "T2:") + args[0])
+                return None
+            if nm == "sha_injective":
+                sym.sha_injective()
+                return None
+            if nm == "try_call":
+                fv = self.eval(node.args[0], frame, False)
+                args = [self.eval(a, frame, False) for a in node.args[1:]]
+                kw = {k.arg: self.eval(k.value, frame, False) for k in node.keywords}
+                try:
+                    return ("return", self.call(fv, args, kw, node=node))
+                except Raise as r:
+                    return ("raise", r.exc.split(".")[-1])
         if isinstance(node.func, ast.Attribute) and isinstance(node.func.value, ast.Name) \
                 and node.func.value.id == "spec" and "spec" not in frame.env:
             fn = getattr(self.spec, node.func.attr, None)
@@ -1081,6 +1110,19 @@ class Interp:
 
     def call_function(self, finfo, args, kwargs, node=None, closure=None):
         c = self.reg.get(finfo.qual)
+        if finfo.cls is not None and args:
+            recv = args[0]
+            rc = None
+            if isinstance(recv, SObj) and isinstance(self.ctx.obj(recv).cls, ClassInfo):
+                rc = self.ctx.obj(recv).cls
+            elif isinstance(recv, SClass):
+                rc = recv.cinfo
+            if rc is not None:
+                c2 = self.reg.get(rc.qual + "." + finfo.name)
+                if c2 is not None:
+                    c = c2
+        if finfo.name == "__init__":
+            c = None      # constructors are always executed inline at call sites
         if finfo.other_decorators:
             raise Unsupported("decorated function %s" % finfo.qual)
         if c is not None and not c.inline_flag:
@@ -1179,6 +1221,14 @@ class Interp:
             self.exec_block(st.orelse, frame)
 
     def s_Assert(self, st, frame):
+        if frame.finfo is not None and getattr(frame.finfo, "ghost", False):
+            g = self.truth(self.eval(st.test, frame))
+            from .contracts import Clause
+            nm = ast.unparse(st.msg).strip("'\"") if st.msg is not None else "assert@%d" % st.lineno
+            cl = Clause("ensures", nm, "True", tags=" ".join(sorted(getattr(frame.contract, "lemma_tags", []))))
+            self.ctx.verifier.oblige(self, nm, "ensures", cl, g)
+            self.ctx.assume(g)
+            return
         c = self.truth(self.eval(st.test, frame))
         if not self.ctx.branch(c, "assert@%d" % st.lineno):
             raise Raise("AssertionError", where=st.lineno)   # message expression dropped
